@@ -17,16 +17,18 @@ const caseTail = "Definition M := Eval vm_compute in mismatches check_case cases
 	"Definition NDECERR := Eval vm_compute in (count_if is_dec_err cases : Z).\nPrint NDECERR.\n" +
 	"Definition NFWD := Eval vm_compute in (count_if is_fwd cases : Z).\nPrint NFWD.\n" +
 	"Definition NIDLE := Eval vm_compute in (count_if is_idle cases : Z).\nPrint NIDLE.\n" +
+	"Definition NFULL := Eval vm_compute in (count_if is_full cases : Z).\nPrint NFULL.\n" +
+	"Definition NCAP := Eval vm_compute in (count_if is_cap cases : Z).\nPrint NCAP.\n" +
 	"Definition NSYS := Eval vm_compute in (count_if is_sys cases : Z).\nPrint NSYS.\n" +
 	"Definition NSOCKETS := Eval vm_compute in (sum_Z fwd_sockets cases : Z).\nPrint NSOCKETS.\n"
 
-// runUDP: -extra selects parts ("pure,fwd,sys,idle"; default all).  -n scales the pure part;
+// runUDP: -extra selects parts ("pure,fwd,full,sys,idle"; default all).  -n scales the pure part;
 // the other parts have fixed scenario lists (longer in the thorough tier).
 func runUDP(cfg *hx.RunCfg) error {
 	hx.Quiet()
 	parts := cfg.Extra
 	if parts == "" {
-		parts = "pure,fwd,sys,idle"
+		parts = "pure,fwd,full,sys,idle"
 	}
 	has := func(p string) bool { return strings.Contains(","+parts+",", ","+p+",") }
 	g := hx.NewGen(cfg.Seed)
@@ -54,6 +56,10 @@ func runUDP(cfg *hx.RunCfg) error {
 	}
 	if has("fwd") {
 		cases = append(cases, runFwd(cfg, g, dist, &fails)...)
+	}
+	if has("full") {
+		cases = append(cases, runFull(cfg, g, dist, &fails)...)
+		cases = append(cases, capCase(dist, &fails)...)
 	}
 	if has("sys") {
 		cases = append(cases, runSys(cfg, g, dist, &fails)...)
